@@ -128,12 +128,32 @@ def check_seq(ctx, ops, model_res):
     ctx.traces += 1
     for i, (a, b) in enumerate(zip(impl, want)):
         if a != b:
-            ctx.fail({"ops": show(ops[:i + 1])}, "step %d: implementation returned %r, reference store %r" % (i, a, b))
+            small = shrink(ops[:i + 1])
+            ctx.fail({"ops": show(small)}, "step %d: implementation returned %r, reference store %r (shrunk to %d ops)" % (i, a, b, len(small)))
             break
     if model_res is not None and impl != model_res:
         i = next((i for i, (a, b) in enumerate(zip(impl, model_res)) if a != b), min(len(impl), len(model_res)))
         ctx.disagree({"ops": show(ops[:i + 1])}, impl[i] if i < len(impl) else None,
                      model_res[i] if i < len(model_res) else None, "journal-op-results")
+
+
+def differs(ops):
+    """implementation vs reference store on a candidate op list (invalid candidates count as not failing)"""
+    try:
+        impl = jc.run_impl(ops)
+        ref = RefStore()
+        want = [ref.step(o) for o in ops]
+    except Exception:
+        return False
+    return impl != want
+
+
+def shrink(ops):
+    from vlib.core import ddmin
+    try:
+        return ddmin(ops, differs, max_tests=150)
+    except Exception:
+        return ops
 
 
 def run(ctx):
